@@ -22,7 +22,7 @@ CHECKS.update({
        "solver-chosen contents (values, plain/CAS kinds per harness, 64-bit versions, written value and version); afterwards EVERY read (get, cget, ls of "
        "every parent, ls_root, len) is compared with a reference fold and the clean-tree invariant is re-established, so the step composes to histories "
        "of any length; a rejected request must change nothing any read observes.",
-  note=BASE + "Bounds: keys over {a,b}, depth <= 2, <= 2 children per node (model map capacity), values Bool. Outside: import (JSON text decoding), "
+  note=BASE + "Bounds: keys over {a,b}, depth <= 2, <= 2 children per node (model map capacity), values Bool. Store::merge (the import path) is covered for overwrite / add / value onto an inner node. Outside: JSON text decoding of an import, "
        "Worterbuch-level wrappers beyond what C03/C08 harnesses cover, several clients.", ref="4 C01"),
  "C04": dict(
   text="For every pattern of <= 2 segments over {a,b,?,#} (legal and illegal) and generated store shapes: Store::get_matches and Store::delete_matches "
@@ -108,17 +108,21 @@ CHECKS.update({
  "C15": dict(
   text="auth.rs on the real code: (a) pattern containment `pattern_matches`/AuthCheck for every granted pattern of <= 3 segments over {a,b,?,#} (one generated harness per grant) "
        "against a solver-chosen requested pattern of <= 3 segments over the same alphabet, compared with a reference containment relation; (b) JwtClaims::authorize selects the grant "
-       "list of exactly the requested privilege (read / write / delete), flag privileges only for flag checks, no grant list = refused.",
-  note=BASE + "Outside the claim: token validation (jsonwebtoken is a types-only model; signature / expiry checks are not encoded), the call sites in the protocol handlers "
-       "(check_auth with auth_required = true; the C13 family runs with authorization off), patterns of depth 4.", ref="A C15"),
+       "list of exactly the requested privilege (read / write / delete), flag privileges only for flag checks, no grant list = refused; (c) call sites with authorization ON "
+       "(real V0/V1::process_incoming_message, check_auth, authorize; stand-in core): per request kind, token chosen by the solver (none / read / write / delete grant): the core is "
+       "called iff the token grants THE privilege that kind needs; otherwise Err Unauthorized with the request's id, no core call, session continues; without a token nothing that "
+       "needs a privilege reaches the core; two requests on one session are decided independently of each other.",
+  note=BASE + "Outside the claim: token validation (jsonwebtoken is a types-only model; signature / expiry checks are not encoded; a session counts as authorized when the "
+       "handlers are handed claims), keys other than a / a/# / ? at the call sites, cset at the call site (memory cap, tier=manual), patterns of depth 4, the HTTP endpoints.", ref="A C15"),
  "C16": dict(
-  text="The real PStateAggregatorState::{aggregate, send_current_state, send_set_event, send_deleted_event, key_already_buffered, schedule_send} driven event by event with the timer "
+  text="The real PStateAggregatorState::{aggregate_loop, aggregate, send_current_state, send_set_event, send_deleted_event, key_already_buffered, schedule_send} driven event by event with the timer "
        "as an environment event (the model `spawn` registers the timer task, the harness decides when it runs and delivers the tick as aggregate_loop does): for generated sequences "
        "of 3 set/deleted events over keys {a,b} and firing patterns, values chosen by the solver: per key the delivered sequence equals the produced one (kind, value, order), nothing "
        "lost or duplicated, no empty batch, batches carry the subscription's id, and whenever something is buffered an armed timer or its tick is outstanding.",
   note=BASE + "Bounds: 3 events, 2 keys, 6 generated (sequence, firing) combinations, values Bool; hashlink::LinkedHashMap is a 2-slot insertion-ordered model. Outside: real time (the bound "
-       "'not longer than the interval' is established as 'a timer armed at or before the event is outstanding'), the select! loop of aggregate_loop, client back-pressure. No native replay "
-       "for this family (the timer-as-event interface exists only in the model): a failing harness is reported as inconclusive (exit 2), not as VIOLATION.", ref="A C16"),
+       "'not longer than the interval' is established as 'a timer armed at or before the event is outstanding' and, for the real aggregate_loop run through the model select! "
+       "(first ready branch in source order or reversed; timers fire when everything is idle), as 'everything is delivered once the timers have fired'), random branch choice of the real "
+       "select!, client back-pressure. Native replay runs the real loop on a real runtime with a 20 ms interval (events back to back, then silence).", ref="A C16"),
  "C19": dict(
   text="Cluster orchestrator: (a) quorum_sanity_check and Config::update_quorum (sliced verbatim) for every number of configured peers <= 4096 and any configured quorum: the default "
        "quorum is a strict majority of all nodes, a configured quorum is accepted iff it is a strict majority and not larger than the node count; (b) the real election.rs "
@@ -185,7 +189,7 @@ def main():
         "engines": [{"name": "kani-cbmc", "path": "/verif/check", "serves_properties": sorted(CHECKS), "kind_free_text": TECH}],
         "checks": checks,
         "not_applicable": sorted(na, key=lambda x: x["property_id"]),
-        "notes": "Solver-based checking of the real code; see DESIGN.md. Fix commits in /repo are listed in known_findings.json (status fixed).",
+        "notes": "Solver-based checking of the real code; see DESIGN.md (section A = as built). Fix commits in /repo (each a genuine defect found by a check, replayed natively; known_findings.json status fixed): e5d19e9, 45f8a30, fdbe9fb, f2021a5, 26f2741. Open findings are reported as KNOWN-FINDING lines (exit 0). Seeded changes and what caught them: seeded/ and DESIGN.md A.",
     }
     json.dump(m, open(os.path.join(V, "MANIFEST.json"), "w"), indent=1)
 
